@@ -35,6 +35,15 @@ pub static LB7_VIOLATIONS: std::sync::Mutex<Vec<String>> = std::sync::Mutex::new
 pub fn opps_of_stripped(stripped: &str) -> Vec<usize> {
     let v: Vec<usize> = unicode_linebreak::linebreaks(stripped).map(|(i, _)| i).collect();
     LB7_CHECKED.fetch_add(1, std::sync::atomic::Ordering::Relaxed);
+    // shape of the answer assumed by the theorems: strictly increasing, positive, char boundaries,
+    // not beyond the end of the text
+    let shape = v.windows(2).all(|x| x[0] < x[1]) && v.iter().all(|&o| o > 0 && o <= stripped.len() && stripped.is_char_boundary(o));
+    if !shape {
+        let mut g = LB7_VIOLATIONS.lock().unwrap();
+        if g.len() < 20 {
+            g.push(format!("linebreaks({:?}) = {:?} is not a strictly increasing list of positive char boundaries", stripped, v));
+        }
+    }
     for &o in &v {
         if stripped.get(o..).and_then(|r| r.chars().next()) == Some(' ') {
             let prev = stripped[..o].chars().next_back();
